@@ -18,7 +18,7 @@ SOURCES = ['src/dtaidistance/dtw.py', 'src/dtaidistance/ed.py', 'src/dtaidistanc
 FUNCTIONS = ['dtw.lb_keogh', 'ed.distance', 'dtw.ub_euclidean', 'dtw.distance(only_ub=True)', 'dd_dtw.c lb_keogh, lb_keogh_euclidean, ub_euclidean*',
              'dd_ed.c euclidean_distance, _euclidean, _ndim, _ndim_euclidean', 'dd_dtw.c dtw_distance*(only_ub)']
 BOUNDS = {'quick': {'r,c': '1..3 (Euclidean: 1..4)', 'window': 'None, 1..max+1', 'ndim (upper bound)': '1..2', 'inner': 'both'},
-          'thorough': {'r,c': '1..4 (Euclidean: 1..5)', 'window': 'None, 1..max+1', 'ndim (upper bound)': '1..3', 'inner': 'both'}}
+          'thorough': {'r,c': '1..5 (Euclidean: 1..6)', 'window': 'None, 1..max+1', 'ndim (upper bound)': '1..3', 'inner': 'both'}}
 OUTSIDE = ['floating point rounding', 'sizes above the bound', 'the Cython wrappers']
 ASSUMPTIONS = ['DTW = spec_dtw oracle (tied to the code by C01/C02)', 'SQ abstraction with pairwise monotonicity lemmas; sat answers refined exactly and replayed']
 RULE = ('configuration = (claim, engine, inner distance, ndim, r, c, window); series values (any sign) symbolic; one query per '
@@ -34,7 +34,7 @@ def prepare(tier):
 
 
 def tasks(tier, seed):
-    n = 3 if tier == 'quick' else 4
+    n = 3 if tier == 'quick' else 5
     ne = n + 1
     ts = []
     for r in range(1, ne + 1):
